@@ -154,7 +154,7 @@ def theorem_names(path: Path) -> List[str]:
         if m and ns and ns[-1] == m.group(1):
             ns.pop()
             continue
-        m = re.match(r"\s*(?:@\[[^\]]*\]\s*)?(?:private\s+|protected\s+)?theorem\s+([\w.']+)", line)
+        m = re.match(r"\s*(?:@\[[^\]]*\]\s*)?(?:private\s+|protected\s+)?theorem\s+([\w.'?!]+)", line)
         if m:
             names.append(".".join(ns + [m.group(1)]))
     return names
